@@ -197,7 +197,7 @@ def h_srv_chain(ob):
             ctx = 'CTX'
             mws = [c12._mk_middleware(i, k, log, ctx, is_async) for i, k in enumerate(ob['stack'])]
             table, _, _ = c12._table(env, ob['table'], log, ctx, is_async)
-            rig = Rig(env, kind, middlewares=mws, error_handlers=table, plain_on_async=plain)
+            rig = Rig(env, kind, middlewares=mws, error_handlers=table, plain_on_async=plain, suspend=False)      # event ORDER across batch elements is compared: no interleaving (C10 explores the schedules)
             rig.log = log          # compare the middleware / handler event log instead of the method log
             rig._ctx = ctx
             return rig
